@@ -2827,6 +2827,12 @@ impl<'de, 'e> de::Deserializer<'de> for YamlDeserializer<'de, 'e> {
             where
                 T: de::DeserializeSeed<'de>,
             {
+                if !self.map_mode {
+                    // Scalar form (`Variant`): there is no payload node. Never read the
+                    // payload from the node that follows in the enclosing container.
+                    let mut empty = ReplayEvents::new(Vec::new());
+                    return seed.deserialize(YamlDeserializer::new(&mut empty, self.cfg));
+                }
                 // Get locations for error reporting before deserializing.
                 let defined_location = self
                     .ev
@@ -2851,6 +2857,11 @@ impl<'de, 'e> de::Deserializer<'de> for YamlDeserializer<'de, 'e> {
             where
                 Vv: Visitor<'de>,
             {
+                if !self.map_mode {
+                    // Scalar form (`Variant`): no payload node, see `newtype_variant_seed`.
+                    let mut empty = ReplayEvents::new(Vec::new());
+                    return YamlDeserializer::new(&mut empty, self.cfg).deserialize_tuple(len, visitor);
+                }
                 let result =
                     YamlDeserializer::new(self.ev, self.cfg).deserialize_tuple(len, visitor)?;
                 if self.map_mode {
@@ -2868,6 +2879,12 @@ impl<'de, 'e> de::Deserializer<'de> for YamlDeserializer<'de, 'e> {
             where
                 Vv: Visitor<'de>,
             {
+                if !self.map_mode {
+                    // Scalar form (`Variant`): no payload node, see `newtype_variant_seed`.
+                    let mut empty = ReplayEvents::new(Vec::new());
+                    return YamlDeserializer::new(&mut empty, self.cfg)
+                        .deserialize_struct("", fields, visitor);
+                }
                 let result = YamlDeserializer::new(self.ev, self.cfg)
                     .deserialize_struct("", fields, visitor)?;
                 if self.map_mode {
